@@ -12,14 +12,17 @@ Headline (all quantifiers unbounded):
                          and complete).
 * `C07_skiplist_refines` the sequential skiplist model (`Add`, `Search`, ascending `Seek`/`Next`)
                          computes exactly the reference operations, for every write history.
+* `C07_art_refines`      the ART model with the order-preserving prefix-free radix key computes, for every
+                         write history, exactly the reference map: scan forward/reverse, `Search`, `Seek`
+                         forward/reverse (`C07_engines_agree`: same content/Search/ascending Seek as the skiplist).
 * `C07_radix_iff`        byte-lexicographic order on two raw internal keys agrees with
                          `CompareKeys` iff neither user key is a proper byte-prefix of the other, or
                          the bytes following the shorter one decide the same way.
 Partial / as-is:
 * `C07_art_partial`      for an ART that navigates raw keys: whenever the user keys of two stored
                          keys are equal or diverge inside both, radix order = `CompareKeys` order.
-                         MISSING for a headline: the refinement theorem "ART model = reference map";
-                         the ART model is tied to the code by correspondence only.
+                         This is what remains of the ordering claim for the AS-IS raw radix key; the
+                         refinement theorem `C07_art_refines` holds for the repaired radix key.
 * `C07_fails_asis_art_prefix`, `C07_fails_asis_art_conflate`, `C07_fails_asis_keylen_u16`,
   `C07_fails_asis_art_concurrent`: negations on the witnesses of the open findings.
 -/
@@ -27,6 +30,7 @@ import NoKVModel.Index.Art
 import NoKVModel.Index.ArtConc
 import NoKVModel.Index.RefLemmas
 import NoKVModel.Index.RadixLemmas
+import NoKVModel.Index.ArtRefine
 
 set_option linter.unusedSimpArgs false
 set_option linter.unusedVariables false
@@ -156,6 +160,95 @@ theorem C07_art_partial (c : IdxCfg) (hc : c.OrderGood) (u1 t1 u2 t2 : Bytes)
   rcases h with h | h
   · subst h; exact raw_eq_ck_same hc.1 u1 t1 t2 h1 h2
   · exact raw_eq_ck_diverge hc.1 t1 t2 h1 h2 h
+
+/-! ### the ART refines the reference map (good radix key) -/
+
+/-- the ART index after a write history (newest first), as `sklBuild` -/
+def artBuild (c : IdxCfg) : List Entry → ArtIdx
+  | [] => {}
+  | (k, v) :: older => (artBuild c older).add c k v
+
+theorem artBuild_inv (c : IdxCfg) (hc : c.ArtGood) (ws : List Entry) (h8 : ∀ w ∈ ws, 8 ≤ w.1.length)
+    (hlen : ∀ w ∈ ws, c.keyLenBits = 0 ∨ w.1.length < 2 ^ c.keyLenBits) :
+    ArtInv c (artBuild c ws) ∧ (artBuild c ws).leaves = build (ckLt c) ws := by
+  induction ws with
+  | nil => exact ⟨by simp [artBuild, ArtInv], by simp [artBuild, ArtIdx.leaves, build]⟩
+  | cons w older ih =>
+    obtain ⟨k, v⟩ := w
+    obtain ⟨hi, hl⟩ := ih (fun w hw => h8 w (by simp [hw])) (fun w hw => hlen w (by simp [hw]))
+    have hk8 : 8 ≤ k.length := h8 (k, v) (by simp)
+    have hst := stored_of_short c (hlen (k, v) (by simp))
+    obtain ⟨hi', hl'⟩ := add_spec hc hi k v hk8 hst
+    exact ⟨hi', by simp only [artBuild, build]; rw [hl', hl]⟩
+
+/-- **The ART is the same ordered map as the reference (and hence as the skiplist).**
+For EVERY sequence of inserts of well-formed internal keys (arbitrary bytes and lengths,
+byte-prefix-related user keys, equal user keys with many versions, re-inserts of the same key)
+into the ART model with the order-preserving prefix-free radix key, full iteration forward and
+reverse, `Search`, and `Seek` + `Next…` in both directions equal those of the `CompareKeys`-sorted
+association list.  Proof: invariant `WF` on the tree (path-compressed prefixes spelled by every
+radix key below, children ordered by byte for all node kinds 4/16/48/256, every leaf under the
+path spelled by its radix key, radix-key order = `CompareKeys` order) with one preservation case
+per insert path (`artIns_spec`: equal key / leaf split / prefix split / new child with growth /
+descent), `artLB_spec` / `artUB_spec` / `artLocate_spec` by recursion on the tree.
+
+Hypotheses: keys have at least 8 bytes (an internal key always carries the 8-byte version suffix;
+the real `CompareKeys` panics on shorter keys) and fit the stored length field (as for the
+skiplist; see finding idx-keylen-u16 for the excluded point).  Concurrency is outside this
+theorem (finding art-concurrent-lost-insert). -/
+theorem C07_art_refines (c : IdxCfg) (hc : c.ArtGood) (ws : List Entry) (h8 : ∀ w ∈ ws, 8 ≤ w.1.length)
+    (hlen : ∀ w ∈ ws, c.keyLenBits = 0 ∨ w.1.length < 2 ^ c.keyLenBits) :
+    (artBuild c ws).scan true = build (ckLt c) ws ∧
+    (artBuild c ws).scan false = (build (ckLt c) ws).reverse ∧
+    (∀ key, 8 ≤ key.length →
+      (artBuild c ws).search c key = searchRef (ckLt c) key (build (ckLt c) ws)) ∧
+    (∀ key, 8 ≤ key.length →
+      (artBuild c ws).seek c true key = seekGE (ckLt c) key (build (ckLt c) ws)) ∧
+    (∀ key, 8 ≤ key.length →
+      (artBuild c ws).seek c false key = seekLE (ckLt c) key (build (ckLt c) ws)) := by
+  obtain ⟨hi, hl⟩ := artBuild_inv c hc ws h8 hlen
+  refine ⟨by simp [ArtIdx.scan, hl], by simp [ArtIdx.scan, hl], ?_, ?_, ?_⟩
+  · intro key hk; rw [search_spec hc hi key hk, hl]
+  · intro key hk; rw [(seek_spec hc hi key hk).1, hl]
+  · intro key hk; rw [(seek_spec hc hi key hk).2, hl]
+
+/-- Both engines are the same ordered map: after the same write history the skiplist model and
+the ART model hold the same sorted content and answer every `Search` and every ascending `Seek`
+identically (descending skiplist iteration is not part of `C07_skiplist_refines`). -/
+theorem C07_engines_agree (c : IdxCfg) (hc : c.ArtGood ∧ c.SklGood) (ws : List Entry)
+    (h8 : ∀ w ∈ ws, 8 ≤ w.1.length) (hlen : ∀ w ∈ ws, c.keyLenBits = 0 ∨ w.1.length < 2 ^ c.keyLenBits) :
+    (artBuild c ws).scan true = sklBuild c ws ∧
+    (∀ key, 8 ≤ key.length → (artBuild c ws).search c key = sklSearch c key (sklBuild c ws)) ∧
+    (∀ key, 8 ≤ key.length → (artBuild c ws).seek c true key = sklSeekAsc c key (sklBuild c ws)) := by
+  obtain ⟨a1, _, a3, a4, _⟩ := C07_art_refines c hc.1 ws h8 hlen
+  obtain ⟨s1, s2, s3⟩ := C07_skiplist_refines c hc.2 ws hlen
+  refine ⟨by rw [a1, s1], ?_, ?_⟩
+  · intro key hk; rw [a3 key hk, s2 key]
+  · intro key hk; rw [a4 key hk, s3 key]
+
+/-- non-vacuity: prefix-related user keys `a`, `ab`, `a·00`, `a·ff` and several versions; the ART
+with the good radix key iterates them in `CompareKeys` order and `Seek(a@0)` lands on `a·00` -/
+example :
+    let g := IdxCfg.good
+    let ws : List Entry := [(mkKey g [97, 255] 511, [5]), (mkKey g [97, 98] 1, [4]), (mkKey g [97] 1, [3]),
+      (mkKey g [97, 0] 7, [2]), (mkKey g [97] 2, [1])]
+    ((artBuild g ws).scan true).map (·.2) = [[1], [3], [2], [4], [5]] ∧
+    ((artBuild g ws).seek g true (mkKey g [97] 0)).map (·.2) = [[2], [4], [5]] ∧
+    (artBuild g ws).search g (mkKey g [97] 1) = some [3] := by decide
+
+/-- the root is a byte-indexed node (Node48/256) with `n` children -/
+def rootIsBigWith (t : ArtIdx) (n : Nat) : Bool :=
+  match t.root with
+  | some (.inner true _ kids) => kids.length == n
+  | _ => false
+
+/-- non-vacuity: node growth — 18 sibling bytes below one prefix turn the Node4/16 into a
+Node48/256 (`big = true`) and the iteration stays sorted -/
+example :
+    let g := IdxCfg.good
+    let ws : List Entry := (List.range 18).map (fun i => (mkKey g [97, 18 - i] 1, [18 - i]))
+    rootIsBigWith (artBuild g ws) 18 = true ∧
+    ((artBuild g ws).scan true).map (·.2) = (List.range 18).map (fun i => [i + 1]) := by decide
 
 /-! ### as-is: negations on the witnesses of the open findings -/
 
